@@ -19,7 +19,7 @@ SPEC = {
         "it is validated at start-up against the 32 official RFC 9497 vectors of the 4 supported suites",
         "soundness assertions (an altered proof / a proof for a false statement does not verify) hold except with probability <= 2^-120 per case; "
         "qndleq statements are false by construction because the factorisation of N is known to the harness (committed pool of safe primes)",
-        "zk/qndleq has no way for the verifier to state its security parameter: the check takes 128 (the value of the package's own tests) as the verifier's",
+        "the verifier's security parameter for zk/qndleq is taken to be 128 (the value of the package's own tests; the pinned API gives the verifier no way to state it, the repaired one calls it MinSecParam)",
         "ot/simot draws its scalars and nonces from crypto/rand: only relations that hold for every draw are asserted",
     ],
     "budget": {"quick": 900, "thorough": 5400},
@@ -39,7 +39,7 @@ MANIFEST = {
             "c=0, s=0, identity, all-ones, one simulator step). zk/dl and zk/qndleq: honest proofs verify, every altered component, statement element "
             "or context string is refused, and proofs assembled without a witness or with prover-chosen parameters are refused. ot/simot: the receiver "
             "obtains m_choice and its key fails on the other ciphertext. Exploration is the right level: the domain is unbounded and each case has an exact oracle.",
-    "note": "on the pinned tree zk/qndleq Proof{Z:7,C:0,SecParam:0}.Verify is true for every statement (key C16/qndleq/false-statement-verifies/prover-chosen-secparam); "
+    "note": "on the pinned tree zk/qndleq Proof{Z:7,C:0,SecParam:0}.Verify is true for every statement (key C16/qndleq/false-statement-verifies/prover-chosen-secparam; repaired in /repo by commit 2a9f9b9, after which the key is no longer hit); "
             "the RFC 9497 reference shares circl's group arithmetic by design; zk/dl and zk/qndleq have no independent reference (their transcript formats are circl's own), "
             "they are checked by metamorphic and adversarial relations only; never establishes absence",
 }
